@@ -547,7 +547,13 @@ func checkWasm(raw json.RawMessage) (ev.Result, error) {
 	os.WriteFile(corpusPath, b, 0o644)
 	ctx, cancel := context.WithTimeout(context.Background(), 120*time.Second)
 	defer cancel()
-	run := exec.CommandContext(ctx, node, script, bin, corpusPath)
+	runner, err := os.ReadFile("testdata/jswasm_runner.js.txt")
+	if err != nil {
+		return ev.Result{}, ev.Inconclusivef("%v", err)
+	}
+	runnerPath, hostCallsPath := filepath.Join(dir, "runner.js"), filepath.Join(dir, "hostcalls.json")
+	os.WriteFile(runnerPath, runner, 0o644)
+	run := exec.CommandContext(ctx, node, runnerPath, filepath.Join(filepath.Dir(script), "wasm_exec.js"), hostCallsPath, bin, corpusPath)
 	run.Dir = dir
 	var so, se bytes.Buffer
 	run.Stdout, run.Stderr = &so, &se
@@ -611,6 +617,27 @@ func checkWasm(raw json.RawMessage) (ev.Result, error) {
 		}
 	}
 	res := ev.Result{Classes: []string{"js-wasm-executed", "table-less-target-executed"}, Sub: r.Policies + len(r.LoadErrs) + 3 + len(r.Lookups), NonTrivial: true}
+	// what reached the host while the stubs were called 200 times each: a js/wasm program has no other way out than the
+	// imports counted by the runner (clock, random numbers, timers, syscall/js). The Go runtime may call some of them on
+	// its own now and then (scheduler, collector), so only a count of at least one per stub call is attributed to the stubs.
+	var hc struct {
+		Section int            `json:"section"`
+		Counts  map[string]int `json:"counts"`
+	}
+	if b, err := os.ReadFile(hostCallsPath); err != nil || json.Unmarshal(b, &hc) != nil || hc.Section != 2 {
+		return res, ev.Inconclusivef("the runner did not see both marker lines (%v, section %d)", err, hc.Section)
+	}
+	var names []string
+	for n := range hc.Counts {
+		names = append(names, n)
+	}
+	sort.Strings(names)
+	for _, n := range names {
+		if hc.Counts[n] >= 200 {
+			return res, fmt.Errorf("on js/wasm the loader stubs call the host: %d calls of %s during 200 calls each of Supported, SetNoNewPrivs and LoadFilter (all host calls in that section: %v)", hc.Counts[n], n, hc.Counts)
+		}
+	}
+	res.Classes = append(res.Classes, "js-wasm-host-calls-of-the-stubs-counted")
 	return res, nil
 }
 
